@@ -350,7 +350,17 @@ impl C11 {
                 let mut t = m.clone(); t[128 + 96] ^= 1; tam.push((format!("{who}.y-bit"), t, r.signal.clone()));
                 let mut sg = r.signal.clone(); sg.push(1); tam.push((format!("{who}.signal-extended"), m.clone(), sg));
             }
-            let roots_sets: Vec<(&str, Vec<u8>)> = vec![("own", codec::fr(&s.root)), ("empty", vec![]), ("foreign", codec::fr(&big(12345))), ("foreign+own", [codec::fr(&big(12345)), codec::fr(&s.root)].concat())];
+            // root buffers in the shapes a caller may plausibly hand over: plain concatenation (the documented one),
+            // a length-prefixed vector encoding, partial trailing bytes
+            let own = codec::fr(&s.root);
+            let foreign = codec::fr(&big(12345));
+            let roots_sets: Vec<(&str, Vec<u8>)> = vec![
+                ("own", own.clone()), ("empty", vec![]), ("foreign", foreign.clone()), ("foreign+own", [foreign.clone(), own.clone()].concat()),
+                ("length-prefixed[own]", codec::vec_fr(&[s.root.clone()])), ("length-prefixed[foreign,own]", codec::vec_fr(&[big(12345), s.root.clone()])),
+                ("length-prefixed[foreign,foreign,own]", codec::vec_fr(&[big(12345), big(777), s.root.clone()])),
+                ("own+8-trailing-bytes", [own.clone(), vec![1, 0, 0, 0, 0, 0, 0, 0]].concat()), ("8-leading-bytes+own", [vec![1, 0, 0, 0, 0, 0, 0, 0], own.clone()].concat()),
+                ("31-bytes", own[..31].to_vec()), ("own+1-byte", [own.clone(), vec![7]].concat()),
+            ];
             for (tn, m, sg) in &tam {
                 let input = with_signal(m, sg);
                 let mut verdict = false;
